@@ -881,7 +881,7 @@ LEVEL_TEXT = ("Machine-checked theorems (Coq 8.16, closed under the global conte
 LEVEL_NOTE = ("Partial: the macro runs inside rustc, so the tie is its expansion on the corpus; attribute parsing and casing "
               "are covered differentially only.  The round trip through the parser is proved as soundness (the command accepts "
               "the printed line => the value comes back) and, round 3, as the equality parse(print v) = Ok v for structs of option fields "
-              "(class: attribute combinations of the matches-level round trip, value ranges that admit the printed group lengths, required fields printed; for i64 scalars the decimal print/parse inversion stays a hypothesis); positionals after --, flattened structs and "
+              "(class: attribute combinations of the matches-level round trip, value ranges that admit the printed group lengths, required fields printed; the scalar print/parse inversion is proved for every element type, i64 decimal included); positionals after --, flattened structs and "
               "subcommand enums in the composed round trip, and 'extraction cannot fail after a successful parse' below flatten / subcommand "
               "nodes (proved for structs of argument fields, all argv) stay checked executably on every "
               "dround / dparse case.  Four families where the unchanged "
